@@ -31,6 +31,23 @@ class SimFS:
         self.fired: list[dict] = []
         self.write_opens: dict[str, int] = {}
         self.log: list = []
+        # logical modification times (ns); far above any real file's mtime, no wall clock involved
+        self.clock = 4_000_000_000_000_000_000
+        self.mtimes: dict[str, int] = {}
+
+    def tick(self) -> int:
+        self.clock += 1_000_000
+        return self.clock
+
+    def mount_source(self, files: dict, root: str, newer: set | None = None) -> None:
+        """Mounts a virtual source tree; files named in `newer` get a fresh mtime (an edit)."""
+        self.vsrc = files
+        self.vroot = root
+        for pth in files:
+            if pth not in self.mtimes:
+                self.mtimes[pth] = self.tick()
+        for pth in sorted(newer or ()):
+            self.mtimes[pth] = self.tick()
 
     # ---- configuration per op
     def begin(self, perm_seed: int, faults) -> None:
@@ -169,6 +186,7 @@ class SimFile(io.StringIO):
     def close(self):
         if not self.closed and not self.readonly:
             self.fs.files[self.path] = self.getvalue()
+            self.fs.mtimes[self.path] = self.fs.tick()
             super().close()
             self.fs.site("close", self.path)
             return
@@ -229,6 +247,16 @@ def make_path_class(fs: SimFS):
                 p = _os.path.normpath(str(self))
                 return p in fs.vsrc or any(q.startswith(p + "/") for q in fs.vsrc)
             return super().exists(**kw)
+
+        def stat(self, **kw):
+            pth = _os.path.normpath(str(self))
+            if fs.inside(self) or fs.in_vsrc(self):
+                known = pth in fs.files or pth in fs.dirs or (fs.vsrc is not None and (pth in fs.vsrc or any(q.startswith(pth + "/") for q in fs.vsrc)))
+                if not known:
+                    raise FileNotFoundError(_errno.ENOENT, "No such file or directory", pth)
+                m = fs.mtimes.get(pth, fs.clock)
+                return _os.stat_result((0o100644, 0, 0, 1, 0, 0, len(fs.files.get(pth, "")), m // 10**9, m // 10**9, m // 10**9, m / 1e9, m / 1e9, m / 1e9, m, m, m))
+            return super().stat(**kw)
 
         def samefile(self, other):
             if fs.in_vsrc(self) or fs.in_vsrc(other):
